@@ -30,7 +30,7 @@ def run(ctx, res):
     now_ = prog.need("mtbl_fileset_reload_now", U)
     paths = {}
     for g in (reload_, now_):
-        paths[g.name] = APE.run(prog, cg, g, bound=1).paths
+        paths[g.name] = APE.run(prog, cg, g, bound=APE.BOUND).paths
 
     # ---- R1 -------------------------------------------------------------------
     res.floor("C07.R1", 2)
@@ -75,11 +75,11 @@ def run(ctx, res):
     mi = fi.calls("mtbl_iter_init")
     res.check(len(mi) == 1 and canon(call_args(mi[0])[2]) == ff.name, "C07.R2", site(fi, "registers-free"),
               "the counting free function is the one registered with the iterator", "fileset iterators are not registered with fileset_iter_free")
-    for p in APE.run(prog, cg, fi, bound=1).paths:
+    for p in APE.run(prog, cg, fi, bound=APE.BOUND).paths:
         if p.end == "exit":
             n = [e for e in p.events if e.kind == "store" and e.a.endswith("->n_iters")]
             res.check(len(n) == 1, "C07.R2", site(fi, "once"), "one increment per iterator", "%d increments per iterator" % len(n), None, p.describe(fi))
-    for p in APE.run(prog, cg, ff, bound=1).paths:
+    for p in APE.run(prog, cg, ff, bound=APE.BOUND).paths:
         if p.end != "exit":
             continue
         evs = [e for e in p.events if e.kind != "branch"]
@@ -96,7 +96,7 @@ def run(ctx, res):
     res.floor("C07.R3", 4)
     for fn, inner in srcs.items():
         g = prog.need(fn, U)
-        for p in APE.run(prog, cg, g, bound=1).paths:
+        for p in APE.run(prog, cg, g, bound=APE.BOUND).paths:
             if p.end != "exit":
                 continue
             evs = [e for e in p.events if e.kind == "call"]
@@ -231,7 +231,7 @@ def run(ctx, res):
     # ---- R6 --------------------------------------------------------------------------
     res.floor("C07.R6", 3)
     ri = prog.need("fs_reinit_merger", U)
-    for p in APE.run(prog, cg, ri, bound=1).paths:
+    for p in APE.run(prog, cg, ri, bound=APE.BOUND).paths:
         evs = list(p.events)
         for i, e in enumerate(evs):
             if e.kind != "call" or e.a != "my_fileset_get":
